@@ -61,6 +61,7 @@ def gen_case(rng, tier):
     # tie-prone graphs: few distinct structures, so that equally frequent constraints abound
     triples = gen.gen_graph(rng, n_nodes=n_nodes, n_classes=rng.randint(1, 3), n_props=rng.randint(2, 5), kinds=kinds,
                             bnodes=(endpoint and rng.random() < 0.3),   # answers with bnode bindings (labels are the endpoint's own)
+                            prop_namespaces=rng.choice([(gen.EX,), (gen.EX, gen.OTHER, "http://vocab.org/t#")]),
                             density=rng.choice([0.5, 0.7, 0.9]), twins=0 if endpoint else 0.06)
     tp = gen.CUSTOM_TYPE if rng.random() < 0.12 else gen.RDF_TYPE
     triples = gen.retype(gen.ensure_class(triples), tp)
